@@ -235,7 +235,7 @@ def check_pair(p, inp, oracle=True):
         if not valid_result(rc):
             p.violation('inverse-shift', 'shift', ci, repr(rc), 'three finite numbers', call_c)
             continue
-        compare_variant(p, 'inverse-shift' + (':360' if abs(off) == 360 else ''), 'shift', ci, (s, a12, a21), rc,
+        compare_variant(p, 'inverse-shift', 'shift', ci, (s, a12, a21), rc,
                         call + ' vs ' + call_c, ell.semimin)
 
 
@@ -280,9 +280,9 @@ def worker(sub, idx, nchunks, n_oracle, n_plain, n_coin):
 
 def run(p):
     nchunks = 8 if p.tier != 'thorough' else 64
-    n_oracle = p.n(256, 128000)
-    n_plain = p.n(1600, 256000)
-    n_coin = p.n(400, 32000)
+    n_oracle = p.n(256, 64000)
+    n_plain = p.n(1600, 128000)
+    n_coin = p.n(400, 16000)
     run_chunks(p, worker, nchunks, (n_oracle // nchunks, n_plain // nchunks, n_coin // nchunks))
 
 
